@@ -370,9 +370,22 @@ Definition unmarshal_url := unmarshal_url_into p0.
 Definition len16 (b : bytes) : bytes := be16 (N.of_nat (length b)).   (* uint16(len(b)): wraps *)
 Definition frame (kv : bytes * bytes) : bytes :=
   len16 (fst kv) ++ fst kv ++ len16 (snd kv) ++ snd kv.
-(* Marshal, the pairs written in the order given (Go: map iteration order) *)
+(* the framing of a list of pairs (lengths wrap at 16 bits, as uint16(len) does) *)
 Definition frames (l : kvs) : bytes := concat (map frame l).
-Definition marshal_bin_order (order : kvs -> kvs) (p : params) : bytes := frames (order (marshal_kv p)).
+
+(* quic Marshal AS IT IS NOW (fix d2e00d7 of F25): the pairs written in the order given (Go: map
+   iteration order); an error (None) when a key or a value does not fit the 16-bit length prefix *)
+Definition fits16 (kv : bytes * bytes) : bool :=
+  (N.of_nat (length (fst kv)) <? 65536) && (N.of_nat (length (snd kv)) <? 65536).
+Definition marshal_bin_checked (order : kvs -> kvs) (p : params) : option bytes :=
+  let l := order (marshal_kv p) in if forallb fits16 l then Some (frames l) else None.
+Definition marshal_bin := marshal_bin_checked.
+
+(* the FORMER writer (before the fix): no check, uint16(len) wraps.  Kept only for the lemma that
+   records finding F25. *)
+Definition marshal_bin_former (order : kvs -> kvs) (p : params) : bytes := frames (order (marshal_kv p)).
+(* which writer the correspondence expects: true = the code as it is now *)
+Definition bin_writer_checks : bool := true.
 
 Definition has_key (k : bytes) (l : kvs) : bool := existsb (fun kv => bytes_eqb (fst kv) k) l.
 
@@ -483,6 +496,8 @@ Inductive neg_obs :=
     (rt_kv rt_ws rt_wt rt_bin : option params)   (* the matching Unmarshal* of the above (URL through Encode/ParseQuery) *)
     (perm_bin : bytes) (rt_perm : option params) (* the pairs re-framed by the harness in a chosen order, and quic Unmarshal of that *)
     (cfg1 cfg2 : cconfig)                   (* CompressConfig(b1), CompressConfig(b2) *)
+    (merr : N)                              (* which Marshal call returned an error: 1 kv, 2 ws URL, 4 wt URL, 8 quic
+                                               (its output is then recorded as empty and its round trip as None) *)
 | ObsKV (r_kv r_ws r_wt : option params)
 | ObsURL (r_ws r_wt : option params)
 | ObsBin (r : option params)
@@ -527,16 +542,19 @@ Definition framing_of (l : kvs) (b : bytes) : bool := match_frames (length l) b 
 
 Definition neg_corr (c : neg_case) : bool :=
   match nc_in c, nc_obs c with
-  | InParams p b1 b2, ObsParams vld kv uws uwt bin rkv rws rwt rbin pbin rperm cfg1 cfg2 =>
+  | InParams p b1 b2, ObsParams vld kv uws uwt bin rkv rws rwt rbin pbin rperm cfg1 cfg2 merr =>
       let mkv := marshal_kv p in
-      oparams_eqb (validate p) vld
+      (* no Marshal of the code as it is can fail; the repaired quic writer refuses long texts *)
+      let bin_refused := bin_writer_checks && negb (forallb fits16 mkv) in
+      (merr =? (if bin_refused then 8 else 0))
+      && oparams_eqb (validate p) vld
       && kvs_eqb (sort_kv mkv) kv
       && url_eqb (sort_by (marshal_url p)) uws && url_eqb (sort_by (marshal_url p)) uwt
-      && framing_of mkv bin
       && oparams_eqb (unmarshal_kv mkv) rkv
       && oparams_eqb (unmarshal_url (marshal_url p)) rws
       && oparams_eqb (unmarshal_url (marshal_url p)) rwt
-      && oparams_eqb (unmarshal_bin bin) rbin
+      && (if bin_refused then is_nil bin && negb (match rbin with Some _ => true | None => false end)
+          else framing_of mkv bin && oparams_eqb (unmarshal_bin bin) rbin)
       && oparams_eqb (unmarshal_bin pbin) rperm
       && cconfig_eqb (compress_config p b1) cfg1 && cconfig_eqb (compress_config p b2) cfg2
   | InKV init l, ObsKV rkv rws rwt =>
@@ -557,12 +575,21 @@ Definition known_enc (e : bytes) : bool := is_nil e || bytes_eqb e enc_json || b
 Definition named_comp (c : bytes) : bool := bytes_eqb c comp_pm || bytes_eqb c comp_cto.
 Definition in_range (lo hi : Z) (o : option Z) : bool :=
   match o with Some z => (lo <=? z)%Z && (z <=? hi)%Z | None => true end.
-(* a valid set, per the property text; level and window are only meaningful - and only
-   checked - when a compression type is named *)
+(* what Validate accepts AS IT IS WRITTEN (characterised in Proofs: validate_spec): level and
+   window bits are looked at only when a compression type is named, text is never looked at.
+   NOT the property's notion of a valid set - that is [valid_set] below. *)
 Definition valid_spec (p : params) : bool :=
   known_enc (p_enc p)
   && (is_nil (p_comp p)
       || (named_comp (p_comp p) && in_range 0 9 (p_level p) && in_range 0 32 (p_bits p))).
+(* a VALID SET, literally per the property text: none of "unknown encoding or compression type,
+   level outside 0-9, window bits outside 0-32, invalid UTF-8" (malformed / duplicated keys are
+   defects of a carrier's content, see bin_wf and the InKV/InURL arms) *)
+Definition valid_text (p : params) : bool :=
+  utf8_valid (p_enc p) && utf8_valid (p_comp p) && utf8_valid (p_tid p) && utf8_valid (p_tgid p).
+Definition valid_set (p : params) : bool :=
+  known_enc (p_enc p) && (is_nil (p_comp p) || named_comp (p_comp p))
+  && in_range 0 9 (p_level p) && in_range 0 32 (p_bits p) && valid_text p.
 (* what a valid set looks like after Validate: the default level 6 filled in *)
 Definition validated_spec (p : params) : params :=
   if named_comp (p_comp p) then
@@ -656,17 +683,33 @@ Definition bin_wf (b : bytes) : option kvs :=
   | None => None
   end.
 
+Definition is_none_p (o : option params) : bool := match o with Some _ => false | None => true end.
+(* "rejected rather than misread": a carrier may refuse a set, it may never hand up another one *)
+Definition not_misread (o : option params) (p : params) : bool := is_none_p o || is_some_p o p.
+Definition ints_ok (p : params) : bool :=
+  oz_int64 (p_level p) && oz_int64 (p_bits p) && in_int64 (p_tgcount p) && in_int64 (p_tgidx p).
+(* every emitted key and value fits the 16-bit length prefix of the binary form (evaluated on
+   the pairs the implementation emitted) *)
+Definition all_fit16 (kv : kvs) : bool :=
+  forallb (fun e => (N.of_nat (length (fst e)) <? 65536) && (N.of_nat (length (snd e)) <? 65536)) kv.
+Definition kv_all_utf8 (l : kvs) : bool := forallb (fun kv => utf8_valid (fst kv) && utf8_valid (snd kv)) l.
+
 Definition neg_ok (c : neg_case) : bool :=
   match nc_in c, nc_obs c with
-  | InParams p b1 b2, ObsParams vld kv uws uwt bin rkv rws rwt rbin pbin rperm cfg1 cfg2 =>
-      (* 1. invalid sets are rejected, valid ones accepted (and only the default level is filled in) *)
-      (if valid_spec p then is_some_p vld (validated_spec p) else negb (match vld with Some _ => true | None => false end))
-      (* 2. every transportable set survives every carrier unchanged; the harness-permuted
-            binary form must really be a framing of the emitted pairs *)
-      && (if transportable p
-          then is_some_p rkv p && is_some_p rws p && is_some_p rwt p && is_some_p rbin p
-               && framing_of kv pbin && is_some_p rperm p
-          else true)
+  | InParams p b1 b2, ObsParams vld kv uws uwt bin rkv rws rwt rbin pbin rperm cfg1 cfg2 merr =>
+      (* 1. valid sets are accepted (only the default level is filled in), invalid sets rejected *)
+      (if valid_set p then is_some_p vld (validated_spec p) else is_none_p vld)
+      (* 2. every valid set survives every carrier unchanged, in the emitted order and in the
+            order chosen by the harness (whose framing must really be a framing of the emitted
+            pairs); the binary form only carries texts shorter than 65536 bytes: a longer one
+            must be refused, by the writer or by the reader.
+            An invalid set may be refused by a carrier but is never handed up as another set. *)
+      && (if valid_set p && ints_ok p
+          then is_some_p rkv p && is_some_p rws p && is_some_p rwt p
+               && framing_of kv pbin
+               && (if all_fit16 kv then is_some_p rbin p && is_some_p rperm p else is_none_p rbin)
+          else not_misread rkv p && not_misread rws p && not_misread rwt p
+               && not_misread rbin p && (if all_fit16 kv then not_misread rperm p else true))
       (* 3. a set that names type, level and window determines the settings *)
       && (match p_level p, p_bits p with
           | Some l, Some w =>
@@ -677,24 +720,27 @@ Definition neg_ok (c : neg_case) : bool :=
           | _, _ => true
           end)
   | InKV init l, ObsKV rkv rws rwt =>
-      if kv_in_scope l
+      if negb (kv_all_utf8 l)
+      then (* invalid UTF-8 anywhere in the map: rejected *)
+           is_none_p rkv && is_none_p rws && is_none_p rwt
+      else if kv_in_scope l
       then oparams_eqb rkv (kv_spec init l)
            && (if forallb (fun kv => negb (is_nil (fst kv))) l
                then oparams_eqb rws (kv_spec init l) && oparams_eqb rwt (kv_spec init l)
-               else negb (match rws with Some _ => true | None => false end)
-                    && negb (match rwt with Some _ => true | None => false end))
+               else is_none_p rws && is_none_p rwt)
       else true
   | InURL vals, ObsURL rws rwt =>
-      if forallb (fun e => negb (is_nil (fst e)) && (length (snd e) =? 1)%nat) vals
+      if negb (forallb (fun e => utf8_valid (fst e) && forallb utf8_valid (snd e)) vals)
+      then is_none_p rws && is_none_p rwt
+      else if forallb (fun e => negb (is_nil (fst e)) && (length (snd e) =? 1)%nat) vals
       then let l := map (fun e => (fst e, hd [] (snd e))) vals in
            if kv_in_scope l
            then oparams_eqb rws (kv_spec p0 l) && oparams_eqb rwt (kv_spec p0 l) else true
       else (* an empty key, or a key with zero or several values *)
-           negb (match rws with Some _ => true | None => false end)
-           && negb (match rwt with Some _ => true | None => false end)
+           is_none_p rws && is_none_p rwt
   | InBin b, ObsBin r =>
       match bin_wf b with
-      | None => negb (match r with Some _ => true | None => false end)
+      | None => is_none_p r
       | Some fr => if kv_in_scope fr then oparams_eqb r (kv_spec p0 fr) else true
       end
   | InDial dc, ObsDial p =>
@@ -712,3 +758,7 @@ Definition neg_ok (c : neg_case) : bool :=
 (* judge flags: bit0 = correspondence broken, bit1 = property predicate false *)
 Definition neg_judge (c : neg_case) : N :=
   (if neg_corr c then 0 else 1) + (if neg_ok c then 0 else 2).
+
+(* the names used in DESIGN.md / the evidence *)
+Definition c17_ok : neg_case -> bool := neg_ok.
+Definition c17_corr : neg_case -> bool := neg_corr.
